@@ -10,6 +10,7 @@ import (
 	"io"
 	"math/rand/v2"
 	"os"
+	"sync"
 
 	"github.com/bronlabs/bron-crypto/pkg/base/mat"
 
@@ -55,7 +56,20 @@ func Rng(seed uint64, stream uint64) io.Reader {
 	binary.LittleEndian.PutUint64(key[0:], seed)
 	binary.LittleEndian.PutUint64(key[8:], stream)
 	copy(key[16:], "verif-harness-rng")
-	return rand.NewChaCha8(key)
+	return &lockedReader{r: rand.NewChaCha8(key)}
+}
+
+// lockedReader serialises reads: parts of the library (AND-composed sigma proofs) read the caller's reader from
+// several goroutines at once.
+type lockedReader struct {
+	mu sync.Mutex
+	r  io.Reader
+}
+
+func (l *lockedReader) Read(p []byte) (int, error) {
+	l.mu.Lock()
+	defer l.mu.Unlock()
+	return l.r.Read(p)
 }
 
 // PRand returns a deterministic math/rand generator for case selection.
